@@ -23,7 +23,6 @@ VARIABLES pick,   \* the chosen <<configuration, data seed>>
           case    \* <<>> until the case has been computed from `pick`
 vars == <<pick, case>>
 
-Val(seed, i) == ((seed * 7919 + i * 104729 + i * i * 31) % 7) - 3
 Distinct(seed, i) == (i * (7 + 6 * (seed % 3))) % 211          \* injective for i < 211
 
 Hash(c) == c.h*3 + c.w*5 + c.kh*7 + c.kw*11 + c.sh*13 + c.sw*17 + c.ph*19 + c.pw*23 + c.dh*29 + c.dw*31
